@@ -38,9 +38,20 @@ def shapes_for(tier, seed):
 
 def plan(tier, seed):
     shapes = shapes_for(tier, seed)
-    shapes.sort(key=lambda s: -O.prod(s))
+    # all axis orders of one shape go to the same shard (2x3 with 3x2, 2x2x5 with 5x2x2, ...): the audit pass answers requests of equal
+    # size next to each other within one process, so layouts that differ only in the order of their axes meet back to back
+    groups = {}
+    for sh in shapes:
+        groups.setdefault(tuple(sorted(sh)), []).append(sh)
+    keys = sorted(groups, key=lambda k: (-O.prod(k), k))
+    per = [[] for _ in range(NSHARD)]
+    load = [0] * NSHARD
+    for k in keys:
+        j = load.index(min(load))
+        per[j].extend(groups[k])
+        load[j] += O.prod(k) * len(groups[k])
     reps = 2 if tier == "quick" else 48
-    plans = [{"name": "s%d" % i, "i": i, "shapes": shapes[i::NSHARD], "reps": reps, "c": 4 if tier == "quick" else 300} for i in range(NSHARD)]
+    plans = [{"name": "s%d" % i, "i": i, "shapes": per[i], "reps": reps, "c": 4 if tier == "quick" else 300} for i in range(NSHARD)]
     # beyond the grid: spectra whose total allele count or number of entries exceeds 2^16 (very large single samples, two large populations)
     big = [[70001], [300, 300], [65537], [131073], [2, 65537], [41, 41, 41], [65536], [257, 257]]
     for k, shape in enumerate(big if tier != "quick" else big[seed % 2::2]):
@@ -66,7 +77,7 @@ def check_L(S, p):
     else:
         for si, shape in enumerate(p["shapes"]):
             n = O.prod(shape)
-            for rep in range(p["reps"] if n < 60000 else 1):
+            for rep in range(p["reps"] if n < 60000 else (1 if n < 2 ** 17 else 6)):       # the largest ones repeatedly: work split over threads
                 rng = rng_for(seed, "c05", p["name"], si, rep)
                 kind = rng.choice(["signed", "dyadic", "int", "sparse", "real", "special"])
                 if n >= 60000:
